@@ -232,7 +232,7 @@ class SpecEval:
                 k = kk
                 bound_sv = SV(coll.ty.k, [kk])
                 guards = [cx.heap.dict_has(coll.ty.k, coll.term, kk)]
-            elif isinstance(coll.ty, (TMapSeq, TKeySet)):
+            elif isinstance(coll.ty, (TMapSeq, TKeySet, TMap)):
                 kk = z3.Const(fresh_name(name), coll.ty.k.comps()[0])
                 k = kk
                 bound_sv = SV(coll.ty.k, [kk])
@@ -283,6 +283,22 @@ class SpecEval:
                 a = self.sev(e.args[0], cx); b = self.sev(e.args[1], cx)
                 cx.facts.append(sext(a.term, b.term))
                 return mk_bool(a.term == b.term)
+            if n == 'fieldmap':
+                # fieldmap(d, "f"): key -> value.f  for a dict of objects, in the current heap
+                d = self.sev(e.args[0], cx)
+                fname = e.args[1].value
+                decl = self.W.field_decl(d.ty.v.cls, fname)
+                if decl is None or len(decl[1].comps()) != 1:
+                    raise Unsupported('fieldmap of %s' % fname)
+                h = cx.heap
+                kk = z3.Const(fresh_name('fm'), d.ty.k.comps()[0])
+                has = z3.Select(h.get(h.dict_has_key(d.ty.k))[0], d.term)
+                obj = z3.Select(z3.Select(h.get(h.dict_val_keys(d.ty.k, d.ty.v)[0])[0], d.term), kk)
+                fld = h.get(h.field_key(decl[0], decl[1]))[0]
+                return SV(TMap(d.ty.k, decl[1]), [has, z3.Lambda([kk], z3.Select(fld, obj))])
+            if n == 'odict_values':
+                from .builtins_model import odict_values_seq
+                return odict_values_seq(None, self.sev(e.args[0], cx), cx.heap)
             if n == 'keyset':
                 d = self.sev(e.args[0], cx)
                 return SV(TKeySet(d.ty.k), [z3.Select(cx.heap.get(cx.heap.dict_has_key(d.ty.k))[0], d.term)])
